@@ -81,10 +81,11 @@ class RoutineDict(TypedDict):
     target_id: NotRequired[str]
 
 
-def parse_pos_mark_arg(arg_str: str) -> tuple[int, int]:
-    arg_str_arr = arg_str.split(".")
+def parse_pos_mark_arg(arg_str: str | int | float) -> tuple[int, int]:
+    # (the documentation shows the coordinates as numbers, the compile CLI prints them as strings)
+    arg_str_arr = str(arg_str).split(".")
     if len(arg_str_arr) < 2:
-        return exps_int(arg_str), 0
+        return exps_int(str(arg_str)), 0
     if arg_str_arr[1] != "5" or len(arg_str_arr) > 2:
         raise ValueError("Invalid position mark")
     return exps_int(arg_str_arr[0]), 2
